@@ -444,7 +444,7 @@ def check_sweep(spec, sweep_no, before, trace, data, y_ref, fail, counts):
                         if 1e-5 * cond > 0.3:
                             # float32 Cholesky: relative error ~ cond * 6e-8; beyond this the comparison says nothing
                             counts["mvn.in_sweep.ill_conditioned_skipped"] = counts.get("mvn.in_sweep.ill_conditioned_skipped", 0) + 1
-                        elif counts.__setitem__("mvn.in_sweep.checked", counts.get("mvn.in_sweep.checked", 0) + 1) or not close(rec["value"], t1 + t2, np.abs(t1) + np.abs(t2), tol=1e-5 * max(1.0, cond)):
+                        elif counts.__setitem__("mvn.in_sweep.checked", counts.get("mvn.in_sweep.checked", 0) + 1) or not close(rec["value"], t1 + t2, float(np.max(np.abs(t1) + np.abs(t2))), tol=1e-5 * max(1.0, cond)):
                             fail("sample_mvn_from_precision(Q, mu_part, z) is not U^-1 z + Q^-1 mu_part",
                                  {"site": site, "result": rec["value"].tolist()}, {"expected": (t1 + t2).tolist(), "cond": float(cond)}, "C08:mvn")
                     except np.linalg.LinAlgError:
